@@ -2435,6 +2435,19 @@ func ruleAB1(c *Ctx) *rule {
 			r.bad(key, c.ipos(site), "the project root does not derive from Options.Spokfile")
 			continue
 		}
+		// ... on every path: each value that can arrive here does
+		stray := ""
+		for _, o := range origins(site.Common().Args[1]) {
+			os := c.newSlicer()
+			os.depth = 0
+			if !os.run(o).hasField("cli/app.Options.Spokfile") {
+				stray = condText(o)
+			}
+		}
+		if stray != "" {
+			r.bad(key, c.ipos(site), "on some path the project root is "+stray+", which does not derive from Options.Spokfile: the cache and every relative dependency are then resolved against another directory")
+			continue
+		}
 		r.ok(key, c.ipos(site), "filepath.Dir(Options.Spokfile)")
 		// the settling function: stores to Options.Spokfile dominated-before this call
 		okAbs := false
